@@ -2,6 +2,7 @@ package main
 
 import (
 	"fmt"
+	"sort"
 	"strings"
 
 	"golang.org/x/tools/go/ssa"
@@ -143,4 +144,72 @@ func c07RdataLexErr(c *Ctx, r *Report) {
 		r.check(len(ps) == 0, "C07.R3.sticky", "Next:end-of-input-lexer-error", c.pos(fn.Pos()), "behind !zp.c.l.err", "%s", strings.Join(ps, "; "))
 	}
 	r.check(len(problems) == 0, "C07.R3.sticky", "Next:rdata-lexer-error", c.pos(fn.Pos()), fmt.Sprintf("%d success return(s) behind !zp.c.l.err", n), "%s", strings.Join(problems, "; "))
+}
+
+// c07ParseBounds: "reading records terminates without panicking", the index part. Every index and slice expression
+// on a byte buffer or a string in the code the zone parser runs for a record (the RDATA parsers, the directive and
+// header state machine, the $GENERATE reader) is entailed in bounds: upper end <= len, lo <= hi, and 0 <= index where
+// the index is a difference. zlexer.Next itself is decided by C07.R4. The facts come from the dominating comparisons,
+// loop invariants, caller-established preconditions, memory versions of the parser's struct fields, non-negativity
+// invariants of unexported counters, and the lexer contract below.
+func c07ParseBounds(c *Ctx, r *Report) {
+	r.rule("C07.R6.parse-bounds", 170, "every index / slice on text and buffers in the RDATA parsers, ZoneParser.Next and the $GENERATE reader is entailed in bounds (upper end, lo <= hi, and 0 <= a difference used as index)")
+	r.rule("C07.R6.zstring-nonempty", 30, "lexer contract used by the parsers: a token classified zString is never empty (every store to the lexer's token is non-empty, zString is stored together with its token, Next returns only copies of it)")
+	e := newAliasEngine(c)
+	var entries []*ssa.Function
+	for _, T := range c.rrTypes() {
+		if f := c.ssaFunc(T.Name + ".parse"); f != nil {
+			entries = append(entries, f)
+		}
+	}
+	for _, n := range []string{"ZoneParser.Next", "zlexer.Next", "ZoneParser.generate", "generateReader.ReadByte"} {
+		if f := c.ssaFunc(n); f != nil {
+			entries = append(entries, f)
+		} else {
+			r.cerr("C07.R6.parse-bounds", n, "function not found")
+		}
+	}
+	scope := e.reachable(entries)
+	var fns []*ssa.Function
+	for f := range scope {
+		fns = append(fns, f)
+	}
+	sort.Slice(fns, func(i, j int) bool { return fnDisplay(fns[i]) < fnDisplay(fns[j]) })
+	withStrings = true
+	defer func() { withStrings = false }()
+	bp := newBoundsProver(c, e, scope)
+	if lc := theLexContract; lc != nil {
+		r.extra["lexer_contract_constructs"] = lc.sites
+		for i := 0; i < lc.sites-len(lc.problems); i++ {
+			r.ok("C07.R6.zstring-nonempty", fmt.Sprintf("zlexer:construct#%d", i+1), "", "token store non-empty / zString paired with its token / returned copy")
+		}
+		for _, p := range lc.problems {
+			r.fail("C07.R6.zstring-nonempty", "zlexer:"+p, "", "%s: a zString token may then be empty, and the RDATA parsers index token[len(token)-1] without a length test (stringToCm)", p)
+		}
+	} else {
+		r.cerr("C07.R6.zstring-nonempty", "zlexer", "contract not evaluated")
+	}
+	lexNext := c.ssaFunc("zlexer.Next")
+	counter := map[string]int{}
+	why := map[string]int{}
+	for _, f := range fns {
+		if f == lexNext {
+			continue
+		}
+		r.fn(fnDisplay(f))
+		for _, s := range boundSites(f) {
+			bp.prove(s)
+			base := fmt.Sprintf("%s:%s", fnDisplay(f), s.describe())
+			counter[base]++
+			construct := base
+			if counter[base] > 1 {
+				construct = fmt.Sprintf("%s#%d", base, counter[base])
+			}
+			if s.Proven {
+				why[s.Why]++
+			}
+			r.check(s.Proven, "C07.R6.parse-bounds", construct, c.pos(s.Instr.Pos()), s.Why, "the access %s is not covered by a dominating test (%s): zone text can make the parser panic", s.describe(), s.Why)
+		}
+	}
+	r.extra["parse_bounds_proof_kinds"] = why
 }
